@@ -51,7 +51,7 @@ type Options struct {
 	ClientCert     *CertPair
 	ClientCA       string
 	NoClientCA     bool
-	UpstreamHost   string // host part of the upstream URL: "127.0.0.1" (default) or "localhost"
+	UpstreamHost   string // host part of the upstream URL: "127.0.0.1" (default), "localhost", or "-" for none (tcp://:port)
 	Secret         string // udp+secret: server side
 	ClientSecret   string // udp+secret: client side (default = Secret)
 	Domain         string
@@ -350,7 +350,10 @@ func Start(o Options) (*Pair, error) {
 			return nil, err
 		}
 	}
-	if o.UpstreamHost != "127.0.0.1" && base != "unix" {
+	if o.UpstreamHost == "-" && base != "unix" {
+		// the upstream URL is written without a host part (tcp://:9000): dials the local host
+		upHost = strings.Replace(upHost, "127.0.0.1", "", 1)
+	} else if o.UpstreamHost != "127.0.0.1" && base != "unix" {
 		upHost = strings.Replace(upHost, "127.0.0.1", o.UpstreamHost, 1)
 	}
 
